@@ -134,12 +134,23 @@ def run(chk):
             okneg &= bool(t2) and t2[0] == "mod" and t2[1] == (-y1).key() and t2[2] == Lin.sym(P).key()
     chk.ob("R14.3", "the second point uses -y mod p of the first", okneg, loc=q3, key="C14|R14.3|negation", detail="the two candidate points do not use the two roots y and -y mod p")
     # Q = r^-1 * (s*R + (-e % n) * G)   (structure by AST: both candidate expressions identical up to R1/R2)
-    qs = [n for n in ast.walk(f3.node) if isinstance(n, ast.Assign) and isinstance(n.value, ast.BinOp) and "inverse_mod" in norm_text(n.value)]
-    okq = len(qs) == 2
+    from sa import pat
+    gen_, hash_ = f3.params[2], f3.params[1]
+    forms = ["numbertheory.inverse_mod(L_r, L_n) * (L_s * L_R + -L_e %% L_n * %s)" % gen_,
+             "numbertheory.inverse_mod(L_r, L_n) * (L_s * L_R + (L_n - L_e) %% L_n * %s)" % gen_,
+             "inverse_mod(L_r, L_n) * (L_s * L_R + -L_e %% L_n * %s)" % gen_]
+    ms = [(n, pat.any_of(n.value, forms)) for n in ast.walk(f3.node) if isinstance(n, ast.Assign)]
+    ms = [(n, b_) for n, b_ in ms if b_ is not None]
+    okq = len(ms) == 2
     if okq:
-        a_, b_ = norm_text(qs[0].value), norm_text(qs[1].value)
-        r1 = [x.id for x in ast.walk(qs[0].value) if isinstance(x, ast.Name) and x.id.startswith("R")]
-        r2 = [x.id for x in ast.walk(qs[1].value) if isinstance(x, ast.Name) and x.id.startswith("R")]
-        okq = len(r1) == 1 and len(r2) == 1 and a_.replace(r1[0], "R") == b_.replace(r2[0], "R") and a_.replace(r1[0], "R") in (
-            "numbertheory.inverse_mod(r, n) * (s * R + -e % n * generator)",)
+        b1, b2 = ms[0][1], ms[1][1]
+        okq = all(b1[k] == b2[k] for k in ("L_r", "L_n", "L_s", "L_e")) and b1["L_R"] != b2["L_R"]
+        # roles of the locals: r = self.r, s = self.s, e = the hash argument, n = generator.order()
+        defs = {}
+        for n in ast.walk(f3.node):
+            if isinstance(n, ast.Assign) and len(n.targets) == 1 and isinstance(n.targets[0], ast.Name):
+                defs.setdefault(n.targets[0].id, []).append(norm_text(n.value))
+        okq &= defs.get(b1["L_r"]) == ["self.r"] and defs.get(b1["L_s"]) == ["self.s"] and defs.get(b1["L_e"]) == [hash_] and defs.get(b1["L_n"]) == ["%s.order()" % gen_]
+        # the two R are the two constructed points
+        okq &= all(len(defs.get(b_["L_R"], [])) == 1 and "PointJacobi(" in defs[b_["L_R"]][0] for b_ in (b1, b2))
     chk.ob("R14.3", "both candidates are r^-1 * (s*R + (-e mod n)*G)", okq, loc=q3, key="C14|R14.3|formula", detail="candidate expressions differ from inverse_mod(r, n) * (s * R + (-e % n) * generator)")
